@@ -2,3 +2,6 @@
 import RelicVerif.Props.C01
 import RelicVerif.Props.C15
 import RelicVerif.Props.C19
+import RelicVerif.Props.C02
+import RelicVerif.Props.C07
+import RelicVerif.Props.C14
